@@ -260,14 +260,14 @@ pub fn property(_tier: Tier) -> Property {
             Box::new(RandomPart {
                 name: "receive",
                 rule: "proptest: stream = random bytes | 1-7 lines mixing valid lines with a dictionary of edge lines (absurd/overlong/leading-zero numbers, binary: with non-numeric or 2^64 length, invalid UTF-8, NUL, CR, bare ACK, 'OK ' ...), last line optionally unterminated | encoder output with 0-2 corruptions; one generated segmentation; blocking/async/async+pending. Oracle: no panic, reads <= bytes+chunks+64, responses equal to the reference decoder's, terminal outcome in its acceptable set, two further receive calls return. non-trivial = >=1 complete valid line and a non-clean end; distinct by serialised case",
-                cases: (20_000, 1_000_000),
+                cases: (60_000, 2_000_000),
                 strategy: Box::new(strategy),
                 check: Box::new(check),
             }),
             Box::new(RandomPart {
                 name: "connect",
                 rule: "proptest: greeting bytes = valid | truncated | one byte flipped | empty version | invalid UTF-8 | other protocol lines | random bytes | beyond 4 KiB, with and without LF; blocking/async connect under a generated segmentation; classified by the reference greeting classifier. non-trivial = non-empty and not a valid greeting",
-                cases: (10_000, 500_000),
+                cases: (30_000, 1_000_000),
                 strategy: Box::new(|_t| {
                     (greeting_bytes(), seg_strategy(40), (0..3usize).prop_map(|i| FLAVOURS[i]))
                         .prop_map(|(bytes, seg, flavour)| ConnectCase { bytes, seg, flavour })
@@ -275,6 +275,7 @@ pub fn property(_tier: Tier) -> Property {
                 }),
                 check: Box::new(check_connect),
             }),
+            crate::fuzzops::corpus_part("fuzz_corpus", "fz_stream", "C09", crate::fuzzops::stream_target),
         ],
         assumptions: vec![
             "vlib::refdec is the reference for what the bytes mean (self-test vectors run first)",
